@@ -679,9 +679,9 @@ func decode(hist []int) []op {
 	return ops
 }
 
-func runHistory(hist []int, budget int, verbose bool) (string, bool, bool) {
+func runHistory(sec string, hist []int, budget int, deep, verbose bool) (string, bool, bool) {
 	for _, o := range decode(hist) {
-		if o.deep && budget < 4 {
+		if o.deep && !deep {
 			return "", false, false
 		}
 	}
@@ -698,7 +698,7 @@ func runHistory(hist []int, budget int, verbose bool) (string, bool, bool) {
 			names = append(names, o.name)
 		}
 		msg := fmt.Sprintf(format, a...) + "\n  history: " + strings.Join(names, " ; ") + "\n  trace: " + strings.Join(s.trace, " ; ")
-		h.ReportExternal("manager-bfs", key, msg, hist, names)
+		h.ReportExternal(sec, key, msg, hist, names)
 	}
 	ops := decode(hist)
 	for i, o := range ops {
@@ -721,13 +721,15 @@ func runHistory(hist []int, budget int, verbose bool) (string, bool, bool) {
 	return s.canon(), true, false
 }
 
-func bfsSection(x *h.X) {
-	budget := 3
-	if x.Thorough() {
-		budget = 4
-	}
+// bfs runs one exploration: budget = number of id-consuming add operations per history; deep = include the
+// thorough-only part of the alphabet (id 3 in adds, HMAC template, two scripted consecutive id answers).
+func bfs(sec string, budget int, deep bool, maxStates int) func(x *h.X) {
+	return func(x *h.X) { bfsSection(x, sec, budget, deep, maxStates) }
+}
+
+func bfsSection(x *h.X, sec string, budget int, deep bool, maxStates int) {
 	if x.Replaying() {
-		runHistory(x.ReplayVector(), budget, true)
+		runHistory(sec, x.ReplayVector(), budget, deep, true)
 		return
 	}
 	cfg := space.Config{NumOps: func(hist []int) int {
@@ -735,20 +737,20 @@ func bfsSection(x *h.X) {
 			return len(startOps)
 		}
 		return len(normalOps)
-	}, Deadline: h.Deadline(), MaxStates: 2000000, Stop: func() bool { return h.ViolationCount() >= 25 }, Progress: func(d, s, t, f int) {
+	}, Deadline: h.Deadline(), MaxStates: maxStates, Stop: func() bool { return h.ViolationCount() >= 25 }, Progress: func(d, s, t, f int) {
 		if os.Getenv("VERIF_PROGRESS") != "" {
 			fmt.Fprintf(os.Stderr, "  depth=%d states=%d transitions=%d frontier=%d\n", d, s, t, f)
 		}
 	}}
-	st := space.Explore(cfg, func(hist []int) (string, bool, bool) { return runHistory(hist, budget, false) })
+	st := space.Explore(cfg, func(hist []int) (string, bool, bool) { return runHistory(sec, hist, budget, deep, false) })
 	h.AddMC(st.States, st.Transitions-st.Pruned, st.Transitions-st.Pruned)
 	x.Eval(int(st.Transitions))
 	x.NonTrivial()
 	x.Outcome(fmt.Sprintf("fixpoint=%v", st.Fixpoint))
-	h.SetExtra("bfs", map[string]any{"states": st.States, "transitions": st.Transitions, "pruned_not_applicable": st.Pruned, "depth": st.Depth, "fixpoint_reached": st.Fixpoint,
+	h.SetExtra("bfs:"+sec, map[string]any{"deep_alphabet": deep, "states": st.States, "transitions": st.Transitions, "pruned_not_applicable": st.Pruned, "depth": st.Depth, "fixpoint_reached": st.Fixpoint,
 		"add_budget": budget, "alphabet_size": len(normalOps), "start_states": len(startOps), "id_domain": fmt.Sprintf("%x + fresh", domain), "capped": st.Capped})
 	if !st.Fixpoint {
-		h.NotExhaustive("BFS stopped before fixpoint: " + st.Capped)
+		h.NotExhaustive(sec + ": BFS stopped before fixpoint: " + st.Capped)
 	}
 	for _, sm := range st.Sample {
 		var names []string
@@ -757,7 +759,7 @@ func bfsSection(x *h.X) {
 		}
 		h.MCSample(map[string]any{"history": names})
 	}
-	fmt.Printf("[C11] BFS states=%d transitions=%d pruned=%d depth=%d fixpoint=%v\n", st.States, st.Transitions, st.Pruned, st.Depth, st.Fixpoint)
+	fmt.Printf("[C11] %s budget=%d deep=%v: BFS states=%d transitions=%d pruned=%d depth=%d fixpoint=%v\n", sec, budget, deep, st.States, st.Transitions, st.Pruned, st.Depth, st.Fixpoint)
 }
 
 func main() {
@@ -765,6 +767,8 @@ func main() {
 	h.Main("C11", "model_checking",
 		"explicit-state BFS to fixpoint over the real keyset.Manager: alphabet = Add(template: 3 valid + nil + unknown prefix + unknown type) x scripted random-ID answers, AddNewKeyFromParameters, AddKey(nil / key without ID requirement / key requiring each domain id), SetPrimary/Enable/Disable/Delete for every id in {1,2,3,0xFFFFFFFF,7,0x21}, NewManagerFromHandle(Handle()); start states: empty manager and two managers parsed from keysets with ENABLED/DISABLED/DESTROYED keys; bound: total number of id-consuming add operations per history. Every transition is compared with a list/map reference model and the property's invariants are evaluated on Handle() in every state; earlier handles are re-dumped after every operation.",
 		[]h.Section{
-			{Name: "manager-bfs", Body: bfsSection, Bound: -1, Serial: true},
+			{Name: "manager-bfs", Body: bfs("manager-bfs", 3, false, 3000000), Bound: -1, Serial: true},
+			{Name: "manager-bfs-deep-alphabet", Body: bfs("manager-bfs-deep-alphabet", 3, true, 3000000), Bound: -1, Serial: true, Tiers: "thorough"},
+			{Name: "manager-bfs-budget4", Body: bfs("manager-bfs-budget4", 4, false, 1500000), Bound: -1, Serial: true, Tiers: "thorough"},
 		})
 }
